@@ -982,4 +982,284 @@ theorem cg_env_aux {g : GridShape} {h : Rat} {uv ug : Sys} {envs : List Int} {im
   · exact absurd h1 hk
   · exact h1
 
+
+/-! ## un-coarse-graining -/
+
+/-- one step of the `cg_nodes` loop -/
+def memStep (acc : List (List Nat)) (p : Int × Nat) : Res (List (List Nat)) :=
+  if cgKeep p.1 then
+    match npNorm acc.length p.1 with
+    | .error e => .error e
+    | .ok k => .ok (acc.modify k (· ++ [p.2]))
+  else .ok acc
+
+theorem cgMembers_eq (ncg : Nat) (ims : List Int) :
+    cgMembers ncg ims = (ims.zipIdx).foldlM memStep (List.replicate ncg []) := rfl
+
+/-- members of group `g` among the (entry, cell) pairs -/
+def membersOf (g : Nat) (l : List (Int × Nat)) : List Nat := (l.filter fun p => p.1 == (g : Int)).map (·.2)
+
+theorem foldlM_memStep (l : List (Int × Nat)) (acc : List (List Nat))
+    (hr : ∀ p ∈ l, p.1 = -1 ∨ (0 ≤ p.1 ∧ p.1 < acc.length)) :
+    ∃ res, l.foldlM memStep acc = .ok res ∧ res.length = acc.length ∧
+      ∀ g, g < acc.length → res[g]? = some (acc.getD g [] ++ membersOf g l) := by
+  induction l generalizing acc with
+  | nil =>
+    refine ⟨acc, rfl, rfl, ?_⟩
+    intro g hg
+    simp [membersOf, List.getD_eq_getElem?_getD, List.getElem?_eq_getElem hg]
+  | cons p r ih =>
+    rcases hr p (by simp) with hm | ⟨h0, hlt⟩
+    · have hk : cgKeep p.1 = false := by rw [hm]; decide
+      obtain ⟨res, h1, h2, h3⟩ := ih acc (fun q hq => hr q (by simp [hq]))
+      refine ⟨res, ?_, h2, ?_⟩
+      · simp only [List.foldlM_cons, memStep, hk, Bool.false_eq_true, if_false]
+        exact h1
+      · intro g hg
+        rw [h3 g hg]
+        have : ¬ (p.1 == (g : Int)) = true := by simp [hm]
+        simp [membersOf, List.filter_cons, this]
+    · have hk : cgKeep p.1 = true := by simp [cgKeep]; omega
+      have hlen : (acc.modify p.1.toNat (· ++ [p.2])).length = acc.length := by simp
+      obtain ⟨res, h1, h2, h3⟩ := ih (acc.modify p.1.toNat (· ++ [p.2]))
+        (fun q hq => by rw [hlen]; exact hr q (by simp [hq]))
+      refine ⟨res, ?_, by rw [h2, hlen], ?_⟩
+      · simp only [List.foldlM_cons, memStep, hk, if_true, npNorm_ofNonneg _ _ h0 hlt]
+        exact h1
+      · intro g hg
+        rw [h3 g (by rw [hlen]; exact hg)]
+        congr 1
+        by_cases hpg : p.1 = (g : Int)
+        · have hgg : p.1.toNat = g := by omega
+          have hb : (p.1 == (g : Int)) = true := by simp [hpg]
+          simp [membersOf, List.filter_cons, hb, List.getD_eq_getElem?_getD, List.getElem?_modify, hgg,
+            List.getElem?_eq_getElem hg]
+        · have hgg : p.1.toNat ≠ g := by omega
+          have hb : ¬ (p.1 == (g : Int)) = true := by simp [hpg]
+          simp [membersOf, List.filter_cons, hb, List.getD_eq_getElem?_getD, List.getElem?_modify, hgg]
+
+def asgStep (d : List Rat) (p : Nat × Rat) : List Rat := d.set p.1 p.2
+
+theorem foldl_asg_length (asg : List (Nat × Rat)) (d : List Rat) : (asg.foldl asgStep d).length = d.length := by
+  induction asg generalizing d with
+  | nil => rfl
+  | cons p r ih => simp [List.foldl_cons, ih, asgStep]
+
+/-- a slot keeps its value when every later assignment to it writes that value -/
+theorem foldl_asg_keeps (asg : List (Nat × Rat)) (d : List Rat) (t : Nat) (v : Rat) (hd : d[t]? = some v)
+    (hall : ∀ q ∈ asg, q.1 = t → q.2 = v) : (asg.foldl asgStep d)[t]? = some v := by
+  induction asg generalizing d with
+  | nil => exact hd
+  | cons q r ih =>
+    simp only [List.foldl_cons]
+    apply ih
+    · unfold asgStep
+      by_cases hq : q.1 = t
+      · have hlt : t < d.length := by
+          by_contra hc
+          rw [List.getElem?_eq_none (by omega)] at hd; cases hd
+        rw [hq, List.getElem?_set_self hlt, hall q (by simp) hq]
+      · rw [List.getElem?_set_ne hq]; exact hd
+    · intro q' hq'; exact hall q' (by simp [hq'])
+
+/-- a slot some assignment writes, all assignments to it agreeing, ends with that value -/
+theorem foldl_asg_member (asg : List (Nat × Rat)) (d : List Rat) (t : Nat) (v : Rat) (ht : t < d.length)
+    (hmem : (t, v) ∈ asg) (hall : ∀ q ∈ asg, q.1 = t → q.2 = v) : (asg.foldl asgStep d)[t]? = some v := by
+  induction asg generalizing d with
+  | nil => simp at hmem
+  | cons q r ih =>
+    simp only [List.foldl_cons]
+    rcases List.mem_cons.1 hmem with rfl | hm
+    · apply foldl_asg_keeps
+      · simp [asgStep, ht]
+      · intro q' hq'; exact hall q' (by simp [hq'])
+    · apply ih _ (by simp [asgStep, ht]) hm
+      intro q' hq'; exact hall q' (by simp [hq'])
+
+/-- a slot no assignment writes keeps its initial value -/
+theorem foldl_asg_untouched (asg : List (Nat × Rat)) (d : List Rat) (t : Nat) (hno : ∀ q ∈ asg, q.1 ≠ t) :
+    (asg.foldl asgStep d)[t]? = d[t]? := by
+  induction asg generalizing d with
+  | nil => rfl
+  | cons q r ih =>
+    simp only [List.foldl_cons]
+    rw [ih _ (fun q' hq' => hno q' (by simp [hq']))]
+    simp [asgStep, List.getElem?_set_ne (hno q (by simp))]
+
+theorem mem_membersOf (g : Nat) (ims : List Int) (j : Nat) :
+    j ∈ membersOf g ims.zipIdx ↔ ∃ h : j < ims.length, ims[j] = (g : Int) := by
+  simp only [membersOf, List.mem_map, List.mem_filter, beq_iff_eq]
+  constructor
+  · rintro ⟨p, ⟨hp, hpg⟩, rfl⟩
+    obtain ⟨_, h2, h3⟩ := List.mem_zipIdx (x := p.1) (i := p.2) (k := 0) hp
+    refine ⟨by omega, ?_⟩
+    simp only [Nat.sub_zero] at h3
+    rw [← h3]; exact hpg
+  · rintro ⟨h, hg⟩
+    refine ⟨(ims[j], j), ⟨?_, hg⟩, rfl⟩
+    rw [List.mem_iff_getElem?]
+    exact ⟨j, by simp [List.getElem?_zipIdx, h]⟩
+
+/-- the flat index of (sample, species, cell) determines the three -/
+theorem idx3_inj {ns nf k s j k' s' j' : Nat} (hs : s < ns) (hj : j < nf) (hs' : s' < ns) (hj' : j' < nf)
+    (h : k * (ns * nf) + s * nf + j = k' * (ns * nf) + s' * nf + j') : k = k' ∧ s = s' ∧ j = j' := by
+  have h1 : s * nf + j < ns * nf := mul_add_lt hs hj
+  have h2 : s' * nf + j' < ns * nf := mul_add_lt hs' hj'
+  obtain ⟨hk, hr⟩ := mul_add_inj (a := k) (c := k') h1 h2 (by rw [← Nat.add_assoc, ← Nat.add_assoc]; exact h)
+  obtain ⟨hs2, hj2⟩ := mul_add_inj hj hj' hr
+  exact ⟨hk, hs2, hj2⟩
+
+theorem uncgDst_nat (ns nf k s j : Nat) :
+    (uncgDst (uncgStateSize ns nf) nf k s j).toNat = k * (ns * nf) + s * nf + j := by
+  simp only [uncgDst, uncgStateSize]
+  have : ((k : Int) * ((ns : Int) * (nf : Int)) + (s : Int) * (nf : Int) + (j : Int)) = ((k * (ns * nf) + s * nf + j : Nat) : Int) := by
+    push_cast; ring
+  rw [this, Int.toNat_natCast]
+
+/-- membership in the assignment list of the four nested loops -/
+theorem mem_uncgAssignments (N ns nf : Nat) (members : List (List Nat)) (inState : List (List (List Rat))) (t : Nat) (v : Rat) :
+    (t, v) ∈ uncgAssignments N ns nf members inState ↔
+      ∃ k, k < N ∧ ∃ s, s < ns ∧ ∃ node, ∃ hn : node < members.length, ∃ j ∈ members[node],
+        t = k * (ns * nf) + s * nf + j ∧
+        v = (((inState.getD k []).getD s []).getD node 0) / ((members[node]).length : Rat) := by
+  simp only [uncgAssignments, List.mem_flatMap, List.mem_map, List.mem_range, Prod.mk.injEq, uncgDst_nat, Prod.exists]
+  constructor
+  · rintro ⟨k, hk, s, hs, mem, node, hmn, j, hj, rfl, rfl⟩
+    obtain ⟨_, h2, h3⟩ := List.mem_zipIdx (k := 0) hmn
+    simp only [Nat.sub_zero] at h3
+    have hn : node < members.length := by omega
+    refine ⟨k, hk, s, hs, node, hn, j, by rw [← h3]; exact hj, rfl, by rw [h3]⟩
+  · rintro ⟨k, hk, s, hs, node, hn, j, hj, rfl, rfl⟩
+    refine ⟨k, hk, s, hs, members[node], node, ?_, j, hj, rfl, rfl⟩
+    rw [List.mem_iff_getElem?]
+    exact ⟨node, by simp [List.getElem?_zipIdx, hn]⟩
+
+/-- number of cells mapped to group `g` -/
+def groupCount (g : Nat) (ims : List Int) : Nat := (membersOf g ims.zipIdx).length
+
+theorem uncg_spec (N ns ncg nf : Nat) (ims : List Int) (cg : List Rat)
+    (hlen : ims.length = nf) (hr : InRange ncg ims) (hcg : cg.length = N * ns * ncg) :
+    ∃ data, uncoarsegrain N ns ncg nf ims cg = .ok data ∧ data.length = N * (ns * nf) ∧
+      ∀ k s j, k < N → s < ns → ∀ hj : j < ims.length,
+        data[k * (ns * nf) + s * nf + j]? =
+          some (if ims[j] = -1 then 0
+                else cg.getD (k * (ns * ncg) + s * ncg + ims[j].toNat) 0 / (groupCount ims[j].toNat ims : Rat)) := by
+  -- members
+  have htake : ims.take nf = ims := by rw [← hlen]; exact List.take_length
+  obtain ⟨members, hmem, hmlen, hmget⟩ := foldlM_memStep ims.zipIdx (List.replicate ncg [])
+    (by
+      intro p hp
+      simpa using hr p.1 (List.fst_mem_of_mem_zipIdx hp))
+  simp only [List.length_replicate] at hmlen hmget
+  have hmem' : cgMembers ncg (ims.take nf) = .ok members := by rw [htake, cgMembers_eq]; exact hmem
+  have hmg : ∀ g (hg : g < ncg), members[g]'(by omega) = membersOf g ims.zipIdx := by
+    intro g hg
+    have := hmget g hg
+    rw [List.getElem?_eq_getElem (by omega)] at this
+    simpa [List.getD_eq_getElem?_getD, hg] using this
+  -- reshape
+  obtain ⟨a, hra, _, ha⟩ := reshape3_index cg N ns ncg hcg
+  have hin : ∀ k s g, k < N → s < ns → g < ncg →
+      ((a.getD k []).getD s []).getD g 0 = cg.getD (k * (ns * ncg) + s * ncg + g) 0 := by
+    intro k s g hk hs hg
+    obtain ⟨blk, h1, _, hb⟩ := ha k hk
+    obtain ⟨row, h3, _, hc⟩ := hb s hs
+    simp [List.getD_eq_getElem?_getD, h1, h3, (hc g hg).1]
+  -- the result
+  let zeros := List.replicate ((uncgStateSize ns nf).toNat * N) (0 : Rat)
+  have hzl : zeros.length = N * (ns * nf) := by
+    simp only [zeros, List.length_replicate, uncgStateSize]
+    have : ((ns : Int) * (nf : Int)).toNat = ns * nf := by
+      rw [← Int.natCast_mul, Int.toNat_natCast]
+    rw [this, Nat.mul_comm]
+  let asg := uncgAssignments N ns nf members a
+  -- every assignment names a cell of a group
+  have hasg : ∀ t v, (t, v) ∈ asg → ∃ k, k < N ∧ ∃ s, s < ns ∧ ∃ g, ∃ hg : g < ncg, ∃ j, ∃ hj : j < ims.length,
+      ims[j] = (g : Int) ∧ t = k * (ns * nf) + s * nf + j ∧
+      v = cg.getD (k * (ns * ncg) + s * ncg + g) 0 / (groupCount g ims : Rat) := by
+    intro t v htv
+    obtain ⟨k, hk, s, hs, node, hn, j, hj, rfl, rfl⟩ := (mem_uncgAssignments N ns nf members a t v).1 htv
+    have hg : node < ncg := by omega
+    rw [hmg node hg] at hj
+    obtain ⟨hjl, hjg⟩ := (mem_membersOf node ims j).1 hj
+    refine ⟨k, hk, s, hs, node, hg, j, hjl, hjg, rfl, ?_⟩
+    rw [hin k s node hk hs hg, hmg node hg]
+    rfl
+  have hrange : asg.any (fun p => decide (p.1 ≥ zeros.length)) = false := by
+    rw [List.any_eq_false]
+    intro p hp
+    obtain ⟨k, hk, s, hs, g, hg, j, hj, _, ht, _⟩ := hasg p.1 p.2 hp
+    have h1 : s * nf + j < ns * nf := mul_add_lt hs (by omega)
+    have h2 : k * (ns * nf) + (s * nf + j) < N * (ns * nf) := mul_add_lt hk h1
+    simp only [ge_iff_le, decide_eq_true_eq, not_le, hzl, ht]
+    omega
+  have hres : uncoarsegrain N ns ncg nf ims cg = .ok (asg.foldl asgStep zeros) := by
+    unfold uncoarsegrain
+    simp only [hmem', hra]
+    rw [if_neg (by omega)]
+    simp only [zeros, asg] at hrange
+    simp only [hrange, Bool.false_eq_true, if_false]
+    rfl
+  refine ⟨asg.foldl asgStep zeros, hres, by rw [foldl_asg_length, hzl], ?_⟩
+  intro k s j hk hs hj
+  have hjn : j < nf := by omega
+  have htl : k * (ns * nf) + s * nf + j < zeros.length := by
+    have h1 : s * nf + j < ns * nf := mul_add_lt hs hjn
+    have h2 : k * (ns * nf) + (s * nf + j) < N * (ns * nf) := mul_add_lt hk h1
+    rw [hzl]; omega
+  by_cases hd : ims[j] = -1
+  · rw [if_pos hd, foldl_asg_untouched]
+    · rw [List.getElem?_eq_getElem htl]
+      simp [zeros]
+    · intro q hq hqt
+      obtain ⟨k', hk', s', hs', g, hg, j', hj', hjg, ht, _⟩ := hasg q.1 q.2 hq
+      rw [ht] at hqt
+      obtain ⟨_, _, hjj⟩ := idx3_inj hs' (by omega) hs hjn hqt
+      subst hjj
+      rw [hd] at hjg
+      omega
+  · rw [if_neg hd]
+    rcases hr ims[j] (List.getElem_mem hj) with h1 | ⟨h0, hlt⟩
+    · exact absurd h1 hd
+    · obtain ⟨g, hgeq⟩ := Int.eq_ofNat_of_zero_le h0
+      have hg : g < ncg := by rw [hgeq] at hlt; exact_mod_cast hlt
+      have hgn : ims[j].toNat = g := by rw [hgeq]; simp
+      rw [hgn]
+      apply foldl_asg_member _ _ _ _ htl
+      · apply (mem_uncgAssignments N ns nf members a _ _).2
+        refine ⟨k, hk, s, hs, g, by omega, j, ?_, rfl, ?_⟩
+        · rw [hmg g hg]; exact (mem_membersOf g ims j).2 ⟨hj, hgeq⟩
+        · rw [hin k s g hk hs hg, hmg g hg]; rfl
+      · intro q hq hqt
+        obtain ⟨k', hk', s', hs', g', hg', j', hj', hjg', ht, hv⟩ := hasg q.1 q.2 hq
+        rw [ht] at hqt
+        obtain ⟨hkk, hss, hjj⟩ := idx3_inj hs' (by omega) hs hjn hqt
+        subst hkk hss hjj
+        have : g' = g := by
+          have : (g' : Int) = (g : Int) := by rw [← hjg', hgeq]
+          exact_mod_cast this
+        subst this
+        exact hv
+
+theorem uncg_group_total_aux (N ns ncg nf : Nat) (ims : List Int) (cg data : List Rat)
+    (hlen : ims.length = nf) (hr : InRange ncg ims) (hcg : cg.length = N * ns * ncg)
+    (hok : uncoarsegrain N ns ncg nf ims cg = .ok data) (k s g : Nat) (hk : k < N) (hs : s < ns)
+    (hcount : groupCount g ims ≠ 0) :
+    ((membersOf g ims.zipIdx).map fun j => data.getD (k * (ns * nf) + s * nf + j) 0).sum =
+      cg.getD (k * (ns * ncg) + s * ncg + g) 0 := by
+  obtain ⟨data', hd, _, hspec⟩ := uncg_spec N ns ncg nf ims cg hlen hr hcg
+  rw [hd] at hok; cases hok
+  have hterm : ∀ j ∈ membersOf g ims.zipIdx, data.getD (k * (ns * nf) + s * nf + j) 0 =
+      cg.getD (k * (ns * ncg) + s * ncg + g) 0 / (groupCount g ims : Rat) := by
+    intro j hj
+    obtain ⟨hjl, hjg⟩ := (mem_membersOf g ims j).1 hj
+    rw [List.getD_eq_getElem?_getD, hspec k s j hk hs hjl, hjg]
+    have : ¬ ((g : Int) = -1) := by omega
+    simp [this]
+  rw [List.map_congr_left hterm]
+  simp only [List.map_const', List.sum_replicate, nsmul_eq_mul]
+  have hc : (groupCount g ims : Rat) ≠ 0 := by exact_mod_cast hcount
+  unfold groupCount at hc ⊢
+  field_simp
+
 end Strengths
